@@ -227,6 +227,13 @@ static Level fam_nestings(int depth, int seqlen) {
               for (int i = 0; i < n; i++) { t = "IF x0 THEN " + t + " ELSE x3 := " + std::to_string(i) + " END"; e = "IF 0 THEN x3 := 9 ELSE " + e + " END"; sv = "SAVE x1 " + sv + " ; x1 := x1 + 1 RESTORE"; }
               cb(mk(pre, t)); cb(mk(pre, e)); cb(mk(pre, sv)); cb(mk(pre, "SAVE x2 " + t + " RESTORE ;\n" + e));
             }
+            // macro bodies that begin with an included fragment (the first body token of both definitions then carries the
+            // same line of the same file), used nested and in sequence
+            for (int init = 0; init < 2; init++) for (auto use : {"KEEP x1 SETTO7 x1 DONE", "KEEP x1 KEEP x2 x1 := 5 ; x2 := 6 DONE DONE", "SETTO7 x1 ; KEEP x1 x1 := 2 DONE", "KEEP x1 x1 := 4 ; SETTO7 x2 DONE ; SETTO7 x3"}) {
+              Case c; c.main = "main"; c.budget = 100; c.files["guard"] = "g9 := 0 ;";
+              c.files["main"] = std::string("x0 := ") + (init ? "1" : "0") + ";\nDEFINE KEEP <ID> <P> DONE AS INCLUDE \"guard\" #0 := $0 ;\n $1 ;\n $0 := #0\nENDDEF\n\nDEFINE SETTO7 <ID> AS INCLUDE \"guard\" #0 := 7 ;\n $0 := #0\nENDDEF\n" + use;
+              cb(c);
+            }
             // two files defining temporaries on equal line numbers
             for (auto body : {"A x1 ; B x2", "B x1 ; A x1", "A x1 ; A x2 ; B x1", "A x1 ; B x1 ; A x1"}) {
               Case c; c.main = "main"; c.files["fa"] = "DEFINE A <ID> AS #0 := 1 ; $0 := #0 ENDDEF"; c.files["fb"] = "DEFINE B <ID> AS #0 := 2 ; $0 := $0 + #0 ENDDEF";
